@@ -190,6 +190,9 @@ def felt_of(interp, v):
     raise Unsupported(f"expected Felt, got {v!r}")
 
 
+RECOGNISE_TIMEOUT_MS = 250
+
+
 def felt_from_int(interp, i):
     """Felt::new / From<uN>: value mod p"""
     x = i.v if isinstance(i, I) else i
@@ -208,11 +211,14 @@ def felt_from_int(interp, i):
     # the same, when the equality with a known field value needs arithmetic reasoning (e.g. the
     # wrapping `(x - 1) * 1 + 1` of op_expacc): ask the solver for each field value occurring in xs
     xf = z3.If(xs >= P, xs - P, xs) if bits > 32 else xs
+    # (short time cap: failing to recognise only loses the identity, never soundness)
     for cand in _field_consts(ctx, xs):
         interp.sync_side()
         interp.solver.push()
         interp.solver.add(xf != cand)
+        interp.solver.set("timeout", RECOGNISE_TIMEOUT_MS)
         r = interp.solver.check()
+        interp.solver.set("timeout", interp.timeout_ms)
         interp.solver.pop()
         if r == z3.unsat:
             return F(ctx.lin_of_value(cand))
